@@ -99,7 +99,12 @@ def _replay_spellings(ctx, sps):
                           'Group.parse(%r) raised %s' % (text, _errcls(g)), case)
             continue
         kind2, h, _ = call(Group, None, csg, list(psgs))
+        # "psgs : iterable of strs": a tuple, a generator, an iterator denote the same multiset as the list
+        others = [call(Group, None, csg, tuple(psgs)), call(Group, None, csg, (p for p in psgs)),
+                  call(Group, None, csg, iter(list(reversed(psgs))))]
         checks = [
+            ('ctor-iterable', kind2 == 'value' and all(k_ == 'value' and o_ == h and hash(o_) == hash(h) and str(o_) == canon
+                                                       for k_, o_, _ in others)),
             ('name', str(g) == canon),
             ('csg', g.csg == csg),
             ('bag', sorted(g.psgs) == sorted(psgs)),
